@@ -159,7 +159,8 @@ def lineStep (w : World) (sep : UInt8) (line : Bytes) (sect : Option Bytes) (t :
     if hdr && name0 = [] then .ok (none, t)                              -- `[]`
     else
       let sect' := if hdr then some name0 else sect
-      let buf' := if hdr then sep :: name0 else buf                     -- sprintf(buf, "%c%s", …)
+      -- sprintf(buf, "%c%s", sepchar, section): with sepchar '\0' the C string in buf is EMPTY
+      let buf' := if hdr then (if sep = 0 then [] else sep :: name0) else buf
       let (nm, vl) := Encode.makeword buf' sep
       let value := Str.trim vl
       let name1 := Str.trim nm
